@@ -101,6 +101,17 @@ def check_case(ctx, case):
         o = call(rep)
     elif plan == "permuted":
         o = call(lambda: apply(src, [strs[i] for i in case["order"]]))
+    elif plan == "stale_then_empty":
+        # an earlier non-in-place call (or filters= given at construction) leaves statements on the object;
+        # a later call with an empty statement list has no statement to satisfy and keeps every event
+        def stale():
+            if case["order"][0] % 2:
+                src.filter(list(strs), in_place=False)
+            else:
+                src.filters = list(strs)
+            return apply(src, [])
+        o = call(stale)
+        want = list(events)
     elif plan == "load_catalog":
         with tempfile.TemporaryDirectory() as d:
             p = os.path.join(d, "cat.csv")
@@ -241,9 +252,9 @@ def cases(draw, max_events=40):
         if col == 1:
             v = max(MS_LO, min(MS_HI, int(v)))
         stmts.append([a, draw(st.sampled_from(list(OPS))), v])
-    plan = draw(st.sampled_from(["list", "list", "tuple", "single_str", "chained", "repeated", "permuted", "load_catalog"]))
+    plan = draw(st.sampled_from(["list", "list", "tuple", "single_str", "chained", "repeated", "permuted", "load_catalog", "stale_then_empty"]))
     case = {"k": "filter", "events": ev, "stmts": stmts, "plan": plan, "in_place": draw(st.booleans())}
-    if plan in ("chained", "permuted"):
+    if plan in ("chained", "permuted", "stale_then_empty"):
         case["order"] = list(draw(st.permutations(list(range(ns)))))
     if plan == "load_catalog" and draw(st.booleans()):
         # with a region: place the events relative to a generated lattice
